@@ -117,7 +117,10 @@ peg::parser! {
             }
 
         rule single_char_bracket_member() -> (String, char) =
-            // Preserve escaped characters as-is.
+            // An escaped letter or digit stands for itself; in a regex `\d`, `\w`, `\a`, ...
+            // would mean something else.
+            ['\\'] [c if c.is_ascii_alphanumeric()] { (c.to_string(), c) } /
+            // Preserve other escaped characters as-is.
             ['\\'] [c] { (std::format!("\\{c}"), c) } /
             // Escape opening bracket.
             ['['] { (String::from(r"\["), '[') } /
